@@ -4,6 +4,7 @@
 package opsx
 
 import (
+	"bytes"
 	"fmt"
 	"reflect"
 	"time"
@@ -292,6 +293,15 @@ func Exec(n int, c abs.OpCase, unit time.Duration, decorate bool) []abs.OpEvent 
 			ev.A = -c.A
 		}
 		d := time.Duration(ev.A) * unit
+		ev.Wb = []abs.WriteBack{}
+		if op == "optimize" {
+			before := DeepCopy(A).(*astisub.Subtitles)
+			for _, f := range wbFormats {
+				wb := abs.WriteBack{Fmt: f, PostCues: [][]string{}}
+				wb.PreRes, wb.PreCues = writeBack(before, f)
+				ev.Wb = append(ev.Wb, wb)
+			}
+		}
 		ev.Res, ev.Msg = run.Guard(20*time.Second, func() {
 			switch op {
 			case "add":
@@ -317,6 +327,9 @@ func Exec(n int, c abs.OpCase, unit time.Duration, decorate bool) []abs.OpEvent 
 		if ev.Res == "ok" {
 			ev.Post = w.Project(A, op == "removestyling")
 			ev.Post2 = w.Project(B, false)
+			for i := range ev.Wb {
+				ev.Wb[i].PostRes, ev.Wb[i].PostCues = writeBack(A, ev.Wb[i].Fmt)
+			}
 		} else {
 			ev.Post, ev.Post2 = ev.Pre, ev.Pre2
 		}
@@ -326,6 +339,61 @@ func Exec(n int, c abs.OpCase, unit time.Duration, decorate bool) []abs.OpEvent 
 		}
 	}
 	return evs
+}
+
+var wbFormats = []string{"srt", "vtt", "ssa", "stl", "ttml"}
+
+// writeBack writes the list in one format and reads the bytes back with the format's reader.
+func writeBack(s *astisub.Subtitles, f string) (res string, cues [][]string) {
+	cues = [][]string{}
+	var buf bytes.Buffer
+	var err error
+	var back *astisub.Subtitles
+	r, _ := run.Guard(20*time.Second, func() {
+		switch f {
+		case "srt":
+			err = s.WriteToSRT(&buf)
+		case "vtt":
+			err = s.WriteToWebVTT(&buf)
+		case "ssa":
+			err = s.WriteToSSA(&buf)
+		case "stl":
+			err = s.WriteToSTL(&buf)
+		case "ttml":
+			err = s.WriteToTTML(&buf)
+		}
+	})
+	if r != "ok" {
+		return "write-" + r, cues
+	}
+	if err != nil {
+		return "write-error", cues
+	}
+	r, _ = run.Guard(20*time.Second, func() {
+		rd := bytes.NewReader(buf.Bytes())
+		switch f {
+		case "srt":
+			back, err = astisub.ReadFromSRT(rd)
+		case "vtt":
+			back, err = astisub.ReadFromWebVTT(rd)
+		case "ssa":
+			back, err = astisub.ReadFromSSA(rd)
+		case "stl":
+			back, err = astisub.ReadFromSTL(rd, astisub.STLOptions{})
+		case "ttml":
+			back, err = astisub.ReadFromTTML(rd)
+		}
+	})
+	if r != "ok" {
+		return "read-" + r, cues
+	}
+	if err != nil {
+		return "read-error", cues
+	}
+	for _, it := range back.Items {
+		cues = append(cues, []string{fmt.Sprint(it.StartAt.Milliseconds()), fmt.Sprint(it.EndAt.Milliseconds()), it.String()})
+	}
+	return "ok", cues
 }
 
 // SameExceptTimes reports whether two lists are deeply equal once every cue's start and end are disregarded.
